@@ -191,6 +191,7 @@ pub fn judge(known: &[KnownEntry], st: &CertState, ctx: &Ctx) -> Outcome {
             (Some(i), SubjectSrc::Spki(s)) => p1.clone().signed_by(s, &i.cert, &i.key),
             (Some(i), SubjectSrc::Custom(c)) => p1.clone().signed_by(c, &i.cert, &i.key),
             (Some(i), SubjectSrc::CsrPub(c)) => p1.clone().signed_by(c, &i.cert, &i.key),
+            (Some(_), SubjectSrc::ViaCsr(_)) => unreachable!(),
             _ => unreachable!(),
         });
         match reissue {
